@@ -1,5 +1,6 @@
 import QecVerif.Model.Wire
 import QecVerif.Model.Smwpm
+import QecVerif.Model.SmwpmTp
 namespace Qec.Drv
 open Qec Qec.Wire Qec.Smwpm Qec.Dec
 
@@ -93,6 +94,20 @@ def showEx {α} (f : α → String) : Except Err α → String
   | .error e => showErr e
   | .ok a => f a
 
+/-- `step_measurement_errors`: `N` = None, `.` = empty list, else rows joined by `/` -/
+def parseOptMat? (s : String) : Option (Option (List BVec)) :=
+  if s == "N" then some none else (parseMat? s).map some
+
+def showFErr : Toric.FErr → String
+  | .dec e => showErr e | .zeroDiv => "ZeroDivisionError" | .noStepMeas => "QecsimError:nostepmeas"
+
+def showResult (r : Ftp.Result) : String :=
+  s!"su={showOpt showBool r.success} rec={showBits r.recovery} cv={showNatList r.cv}"
+
+def showRunOut : Except RunErr RunOut → String
+  | .error _ => "raise"
+  | .ok o => s!"{o.errorWeight}:{showBool o.success}:{showOptIntList o.lc}:{showOptIntList o.cv}"
+
 end SmwpmW
 open SmwpmW
 
@@ -167,6 +182,31 @@ def smwpm : List String → Option String
       let fl ← parseFlags? fl; let r ← parseInt? r; let c ← parseInt? c; let rows ← parseMat? rows
       let ms ← parseMatches? ms; let cms ← parseCMatches? cms
       pure s!"pm={showBool (Toric.matchingsOk fl r c rows ms cms)} {showEx (fun v => "rec=" ++ showBits v) (Toric.decode r c ms cms)}"
+  -- t-parity outputs of both stages and the `DecodeResult` of the rotated toric `decode_ftp` from the two recorded
+  -- matchings: `pm=… tp=sx,sz,cx,cz su=… rec=… cv=…`
+  | ["tftp", fl, r, c, itp, rows, ms, cms, meas] => do
+      let fl ← parseFlags? fl; let r ← parseInt? r; let c ← parseInt? c; let itp ← parseBool? itp
+      let rows ← parseMat? rows; let ms ← parseMatches? ms; let cms ← parseCMatches? cms; let meas ← parseOptMat? meas
+      let tp := match Toric.stageTps rows.length ms cms with
+        | .error e => showFErr e
+        | .ok s => s!"{s.sx},{s.sz},{s.cx},{s.cz}"
+      let res := match Toric.decodeFtp r c rows.length itp ms cms meas with
+        | .error e => showFErr e
+        | .ok x => showResult x
+      pure s!"pm={showBool (Toric.matchingsOk fl r c rows ms cms)} tp={tp} {res}"
+  -- the whole fault-tolerant run: rows from the step errors and flips (C01 `syndromeRows`), the rotated toric
+  -- `decode_ftp` from the two recorded matchings, then `app._run_once`'s verdict:
+  -- `rows=… pm=… <DecodeResult> run=weight:success:logical_commutations:custom_values`
+  | ["trun", fl, r, c, itp, es, meas, ms, cms] => do
+      let fl ← parseFlags? fl; let r ← parseInt? r; let c ← parseInt? c; let itp ← parseBool? itp
+      let es ← parseMat? es; let meas ← parseMat? meas; let ms ← parseMatches? ms; let cms ← parseCMatches? cms
+      let S := RotatedToric.stabilizers r c
+      let rows := syndromeRows S es meas
+      let (res, run) := match Toric.decodeFtp r c rows.length itp ms cms (some meas) with
+        | .error e => (showFErr e, "raise")
+        | .ok x => (showResult x,
+            showRunOut (Toric.runFtp S (RotatedToric.logicalXs r c ++ RotatedToric.logicalZs r c) (RotatedToric.nQubits r c).toNat es x))
+      pure s!"rows={showMat rows} pm={showBool (Toric.matchingsOk fl r c rows ms cms)} {res} run={run}"
   | _ => none
 
 end Qec.Drv
